@@ -80,16 +80,16 @@ def req_lists(n: int, deps: list, mode: str) -> Iterator[list]:
                 yield cand
 
 
-def mk(n, deps, typ, maxpar, tcache, cached0, req, backend, maxw, cof=True, bust=False, fail=(), storage=True):
+def mk(n, deps, typ, maxpar, tcache, cached0, req, backend, maxw, cof=True, bust=False, fail=(), storage=True, badload=()):
     return dict(n=n, deps=[sorted(d) for d in deps], typ=list(typ), maxpar=list(maxpar), tcache=list(tcache),
                 cached0=sorted(cached0), req=list(req), backend=backend, maxw=maxw, cof=bool(cof),
-                bust=bool(bust), fail=sorted(fail), storage=bool(storage))
+                bust=bool(bust), fail=sorted(fail), storage=bool(storage), badload=sorted(badload))
 
 
 def family(n: int = 3, *, ntypes: int = 1, maxpars=(UNL,), maxws=(2,), backends=('fork',), cached='none',
            reqs='roots', cofs=(True,), busts=(False,), fails='none', tcache_opts=None,
            sample: int | None = None, seed: int = 0, nonempty_deps: bool = False,
-           max_edges: int | None = None) -> list:
+           max_edges: int | None = None, badloads: str = 'none') -> list:
     """Enumerate (or sample) a configuration family.
 
     cached: 'none' | 'all-subsets'     fails: 'none' | 'singles' | 'all-subsets'
@@ -121,8 +121,10 @@ def family(n: int = 3, *, ntypes: int = 1, maxpars=(UNL,), maxws=(2,), backends=
                                     for backend in backends:
                                         for maxw in (maxws if backend != 'serial' else maxws[:1]):
                                             for cof in cofs:
-                                                out.append(mk(n, deps, typ, maxpar, tcache, c0, req, backend,
-                                                              maxw, cof, bust, fl))
+                                                bls = [[]] if badloads == 'none' or bust else [[]] + [[t] for t in c0 if t in clo]
+                                                for bl in bls:
+                                                    out.append(mk(n, deps, typ, maxpar, tcache, c0, req, backend,
+                                                                  maxw, cof, bust, fl, badload=bl))
     if sample is not None and len(out) > sample:
         rnd = random.Random(seed)
         out = rnd.sample(out, sample)
